@@ -526,3 +526,11 @@ func init() {
 		r.Assumptions = []string{"blockWriter.add returning true means the record was appended to the current block", "iterator Next fills the record passed to it"}
 	}
 }
+
+func init() {
+	checks["C01"] = func(p *Program, r *Report) {
+		checkWriterGates(p, r)
+		checkRestartCap(p, r)
+		r.Engines = []string{"pathsim", "dtable"}
+	}
+}
